@@ -18,7 +18,7 @@ if ! git -C $wt apply "$patch"; then echo "PATCH DOES NOT APPLY: $patch"; git -C
 cd "$(dirname "$0")/.."
 for c in "${ids[@]}"; do
   log=/tmp/mev/logs/$name.$c.log
-  PYTHONPATH=$wt VERIF_REPLAY_DIR=/tmp/mev/replays/$name ./check $c --tier quick --no-evidence "${extra[@]}" > $log 2>&1
+  PYTHONPATH=$wt VERIF_REPO=$wt VERIF_REPLAY_DIR=/tmp/mev/replays/$name ./check $c --tier quick --no-evidence "${extra[@]}" > $log 2>&1
   rc=$?
   echo "$name $c rc=$rc $(grep -c '^VIOLATION' $log) violation lines; $(grep "^$c: runs" $log | cut -c1-200)"
   grep '^VIOLATION' $log | head -3
